@@ -130,6 +130,9 @@ pub struct Tables {
     pub futs: Mutex<HashMap<u32, FutBox>>,
     pub obs: Mutex<Vec<Obs>>,
     pub t0: Option<std::time::Instant>,
+    /// (programs named "...-lazy...") closures of re-entrant operations return a lazy iterator: the
+    /// inner operations run when the library consumes it, not when it calls the closure
+    pub lazy_closures: bool,
 }
 
 fn lock<T>(m: &Mutex<T>) -> std::sync::MutexGuard<'_, T> {
@@ -868,12 +871,27 @@ fn exec_reentrant(outer: &Op, inner: &[Op], l: &mut Local, t: &Arc<Tables>) -> R
             lock(&ir).push(r);
         }
     };
-    let kv = |props: &Props| -> Vec<(String, String)> { props.clone() };
+    let lazy = t.lazy_closures;
+    let run_inner = &run_inner;
+    // eager: the closure runs the inner operations, then returns the pairs; lazy: it returns an
+    // iterator that runs them when its first element is asked for
+    let kv = move |props: &Props| {
+        if !lazy {
+            run_inner();
+        }
+        let mut first = lazy;
+        props.clone().into_iter().map(move |pair| {
+            if first {
+                first = false;
+                run_inner();
+            }
+            pair
+        })
+    };
     match outer {
         Op::Root { slot, name, trace, remote_parent, sampled, props } => {
             let ctx = SpanContext::new(TraceId(trace.0), SpanId(*remote_parent)).sampled(*sampled);
             let s = Span::root(name.clone(), ctx).with_properties(|| {
-                run_inner();
                 kv(props)
             });
             put_span(t, *slot, s)?;
@@ -881,7 +899,6 @@ fn exec_reentrant(outer: &Op, inner: &[Op], l: &mut Local, t: &Arc<Tables>) -> R
         Op::Child { slot, name, parents, props, .. } => {
             let ps: Vec<Arc<Span>> = parents.iter().map(|p| get_span(t, *p)).collect::<Result<_, _>>()?;
             let s = Span::enter_with_parents(name.clone(), ps.iter().map(|a| &**a)).with_properties(|| {
-                run_inner();
                 kv(props)
             });
             drop(ps);
@@ -890,21 +907,18 @@ fn exec_reentrant(outer: &Op, inner: &[Op], l: &mut Local, t: &Arc<Tables>) -> R
         Op::AddProps { slot, props } => {
             let s = get_span(t, *slot)?;
             s.add_properties(|| {
-                run_inner();
                 kv(props)
             });
         }
         Op::AddEvent { slot, name, props } => {
             let s = get_span(t, *slot)?;
             let e = Event::new(name.clone()).with_properties(|| {
-                run_inner();
                 kv(props)
             });
             s.add_event(e);
         }
         Op::LocalEnter { name, props } => {
             let s = LocalSpan::enter_with_local_parent(name.clone()).with_properties(|| {
-                run_inner();
                 kv(props)
             });
             let l3: &mut Local = unsafe { &mut *lp };
@@ -912,13 +926,11 @@ fn exec_reentrant(outer: &Op, inner: &[Op], l: &mut Local, t: &Arc<Tables>) -> R
         }
         Op::LocalAddProps { props } => {
             LocalSpan::add_properties(|| {
-                run_inner();
                 kv(props)
             });
         }
         Op::LocalAddEvent { name, props } => {
             let e = Event::new(name.clone()).with_properties(|| {
-                run_inner();
                 kv(props)
             });
             LocalSpan::add_event(e);
